@@ -1,6 +1,10 @@
-(** C10 — unreachable memory is recycled; the heap stays well-formed: property theorems only. *)
+(** C10 — unreachable memory is recycled; the heap stays well-formed: property theorems only.
+    Model: coq/C10/Model.v (sexp_make_heap, sexp_try_alloc, sexp_sweep, sexp_gc's allocator part,
+    sexp_grow_heap, sexp_alloc of gc.c).  [Inv]: coq/C10/Spec.v — every segment starts with the zero-size
+    sentinel and is tiled EXACTLY by free-list nodes and objects, the free list is strictly increasing,
+    coalesced (no two chunks adjacent), sizes positive and aligned, all mark bits clear. *)
 From Coq Require Import ZArith List.
-From ChibiV Require Import Gen.C10_Consts C10.Model C10.Spec C10.Proofs.
+From ChibiV Require Import Gen.C10_Consts C10.Model C10.Spec C10.Proofs C10.Sweep C10.Theorems.
 Import ListNotations.
 Local Open Scope Z_scope.
 
@@ -14,7 +18,59 @@ Theorem try_alloc_inv : forall st size i o st',
 Proof. exact try_alloc_inv_lemma. Qed.
 Print Assumptions try_alloc_inv.
 
+(** the sweep of any exactly tiled state, WHATEVER the mark bits: it terminates with the provided fuel,
+    re-establishes the invariant (coalesced, marks clear), changes no segment size ... *)
+Theorem sweep_inv : forall st, heaps st <> [] -> Forall heap_inv (heaps st) ->
+  exists st' mf sf, sweep st = Some (st', mf, sf) /\ Inv st' /\
+    map hsize (heaps st') = map hsize (heaps st) /\ max_size st' = max_size st /\
+    state_objs st' = map surv (state_objs st) /\ sf = all_dead_bytes st /\ 0 <= mf.
+Proof. exact sweep_inv_lemma. Qed.
+Print Assumptions sweep_inv.
+
+(** ... and frees exactly the unmarked objects: what is left, per heap, is the list of the marked objects
+    at their old offsets with their old sizes, marks cleared *)
+Theorem sweep_frees_exactly_unmarked : forall st st' mf sf, heaps st <> [] -> Forall heap_inv (heaps st) ->
+  sweep st = Some (st', mf, sf) -> state_objs st' = map surv (state_objs st).
+Proof. exact sweep_frees_exactly_unmarked_lemma. Qed.
+Print Assumptions sweep_frees_exactly_unmarked.
+
+Theorem sweep_free_bytes : forall st st' mf sf, heaps st <> [] -> Forall heap_inv (heaps st) ->
+  sweep st = Some (st', mf, sf) ->
+  state_free st' = total_size st - hdr_sz * Z.of_nat (length (heaps st)) - live_bytes st
+  /\ sf = all_dead_bytes st.
+Proof. exact sweep_free_bytes_lemma. Qed.
+Print Assumptions sweep_free_bytes.
+
 Theorem grow_inv : forall st size, Inv st -> 0 < size -> (unit_sz | size) ->
   Inv (grow st size) /\ total_size (grow st size) = total_size st + grow_size st size.
 Proof. exact grow_inv_lemma. Qed.
 Print Assumptions grow_inv.
+
+Theorem gc_inv : forall st mss st' mf sf, Inv st -> gc st mss = Some (st', mf, sf) ->
+  Inv st' /\ map hsize (heaps st') = map hsize (heaps st) /\ max_size st' = max_size st.
+Proof. exact gc_inv_lemma. Qed.
+Print Assumptions gc_inv.
+
+Theorem alloc_inv : forall st size mss, 0 < size -> (unit_sz | size) -> Inv st -> Inv (fst (alloc st size mss)).
+Proof. exact alloc_inv_lemma. Qed.
+Print Assumptions alloc_inv.
+
+(** any history of allocations and collections, any mark inputs *)
+Theorem heap_inv_reachable_states : forall size max ops,
+  hdr_sz < size -> (unit_sz | size) -> Forall req_ok ops -> Inv (fold_left step ops (init size max)).
+Proof. exact heap_inv_reachable_states_lemma. Qed.
+Print Assumptions heap_inv_reachable_states.
+
+Theorem alloc_reuses : forall st size,
+  (exists h n, In h (heaps st) /\ In n (tl (hnodes h)) /\ size <= nsize n) -> try_alloc st size <> None.
+Proof. exact alloc_reuses_lemma. Qed.
+Print Assumptions alloc_reuses.
+
+Theorem no_growth_when_fits : forall st size mss st1 mf sf,
+  gc st mss = Some (st1, mf, sf) -> size <= mf ->
+  ratio_den * (total_size st1 - sf) <= ratio_num * total_size st1 ->
+  try_alloc st size = None ->
+  map hsize (heaps (fst (alloc st size mss))) = map hsize (heaps st1) \/
+  exists i o st3, try_alloc st1 size = Some (i, o, st3) /\ fst (alloc st size mss) = st3.
+Proof. exact no_growth_when_fits_lemma. Qed.
+Print Assumptions no_growth_when_fits.
